@@ -182,7 +182,13 @@ m("C03", "other",
   "(C03_gap_tile_immediate), the sender serves it in the middle of its stream "
   "(C03_sender_serves_request_sending) and resumes (C03_sender_resumes_stream, rounds_resume): all its PDUs "
   "together are exactly those of the undisturbed run; the receiver fills the hole while still receiving "
-  "(C03_hole_filled_receiving) and the transfer closes normally. Building blocks are stated from states "
+  "(C03_hole_filled_receiving) and the transfer closes normally. C03_end_to_end_metadata_loss: the METADATA PDU "
+  "is lost — the first File Data PDU starts the transaction without a destination (nothing stored, extent "
+  "recorded: C03_tiles_without_metadata), the EOF is acknowledged, ONE NAK requests the Metadata (0,0) and the "
+  "whole file (0,|F|), the sender answers with exactly the original Metadata PDU followed by exactly the "
+  "original tiles (C03_sender_serves_metadata_and_file, chunkPdus_eq_tiles), the receiver creates the "
+  "destination (C03_metadata_late), stores the tiles — each shrinks the lost range from its head "
+  "(C03_resent_tiles) —, verifies with the last one (C03_resent_last_tile) and completes. Building blocks are stated from states "
   "(C03_prefix_single_loss, C03_recovery_from_waiting, C03_closing*), so they compose. The "
   "liveness claim for arbitrary <= K fault schedules (recovery within the limits) is NOT a theorem: it is "
   "explored on implementation and model — exhaustively for every schedule of one or two dropped PDUs per "
@@ -192,9 +198,9 @@ m("C03", "other",
   "(general liveness not proved)", "§6 C03, §11",
   ["liveness under an adversarial link with K > 1 faults / duplication / reordering is explored, not proved "
    "(DESIGN.md §6 C03 stage 4); the proved recovery runs are for one lost File Data PDU (deferred NAK mode), a lost EOF, ACK (EOF), "
-   "Finished, ACK (Finished), NAK (any number below the limit) or retransmitted PDU, one PDU per call; lost "
-   "Metadata, duplication/reordering beyond idempotent writes, several lost File Data PDUs and immediate-mode "
-   "losses other than one File Data PDU are exploration-level"])
+   "Finished, ACK (Finished), NAK (any number below the limit) or retransmitted PDU, one PDU per call, and for a lost Metadata "
+   "PDU (deferred mode); duplication/reordering beyond idempotent writes, several lost File Data PDUs at once "
+   "and immediate-mode losses other than one File Data PDU are exploration-level"])
 m("C04", "proof",
   "silent-peer scenarios for the three retry procedures with limits 1..4 and intervals 500..2000 ms: calls "
   "one ms before each expiry (nothing may happen), exactly at it; the awaited ACK after j < N expiries; exact "
